@@ -238,6 +238,13 @@ theorem avx2_counterexample_repo_test :
     spec cexLeaf121 [0, 0, 0, 0, 0, 0, 0, 242] = .notFound 121 :=
   ⟨cexLeaf121_wf, by unfold BytesOK; decide, by decide +kernel, by decide +kernel⟩
 
+/-- "regardless of CPU feature availability", stated outright: on every well-formed leaf and every
+probe the AVX2 dispatch path (after fix_simd.patch) and the scalar dispatch path return the SAME
+found position / insertion point -/
+theorem dispatch_independent {L : Leaf} (w : WF L) {k : List Nat} (hk : BytesOK k) :
+    findAvx2 L k = findScalar L k :=
+  (avx2_correct w hk).trans (scalar_correct w hk).symm
+
 /-- The fuel bounds in the model entry points never cut a loop short: with any larger fuel the three
 narrowing loops and the final search return the same result (so the model loops stop for the same
 reason as the `while` loops of the code). -/
